@@ -161,8 +161,8 @@ func init() {
 			if c.Quick() {
 				runSched(c, "C03", []string{"M1-mint-mint", "M3-mint-poll-watcher", "M5-mint-poll-settlement", "M6-nut20-mint-mint", "M7-mint-badmint"}, 2)
 			} else {
-				runSched(c, "C03", []string{"M1-mint-mint", "M3-mint-poll-watcher", "M4-mint-mint-watcher", "M5-mint-poll-settlement", "M6-nut20-mint-mint", "M7-mint-badmint"}, 3)
-				runSched(c, "C03", []string{"M2-mint-mint-mint"}, 2)
+				runSchedAll(c, "C03", []string{"M1-mint-mint", "M3-mint-poll-watcher", "M4-mint-mint-watcher", "M5-mint-poll-settlement", "M6-nut20-mint-mint", "M7-mint-badmint"}, 3)
+				runSchedAll(c, "C03", []string{"M2-mint-mint-mint"}, 2)
 			}
 		},
 		Worker: dispatchWorker(bfs.Worker(c03All)),
